@@ -863,6 +863,15 @@ def layoutFg (pol : BgPolicy) (isMsp : Bool) (customDark : Bool) : Nat :=
     | .custom => customDark
   if dark then 0xFFFFFF else 0
 
+/-- the render context of `draw_layout` under a background policy.  QUIRK of the code that the model mirrors: `set_current_layout` resolves
+    the layer table (`_setup_layers` → `_true_layer_color` → `_aci_to_true_color(7)`) BEFORE `set_background` overrides the colours of the
+    layout, so a layer colour that comes from ACI 7 WITHOUT the `has_aci_color_7` mark (`dxf.color = -7`: layer off, reached through
+    BYBLOCK of a reference on that layer) is frozen with the DEFAULT foreground of the layout (modelspace white, paperspace black), while
+    everything resolved per entity (ACI 7, BYLAYER of a layer marked `has_aci_color_7`, BYBLOCK at layout level) uses the foreground of
+    the background policy -/
+def mkCtxBg (bg : BgPolicy) (isMsp customDark : Bool) (aci : List Nat) (exportMode : Bool) (ls : List RawLayer) : Ctx :=
+  { mkCtx (layoutFg .default isMsp customDark) aci exportMode ls with fg := layoutFg bg isMsp customDark }
+
 /-- `RenderContext.resolve_visible` for a 3DFACE (fix bb5ad742d): hidden if all four edges are invisible, otherwise like any
     other entity (layer state, invisible flag) -/
 def resolveVisibleFace (ctx : Ctx) (allEdgesHidden : Bool) (key : String) (e : EProps) : Bool :=
